@@ -1,7 +1,198 @@
-import Ccp.Model.Tree
+import Ccp.Spec.Indent
+import Ccp.Proofs.TreeLink
+import Ccp.Proofs.TreeLossless
+import Ccp.Proofs.TreeKeep
+/-!
+# C02 — parent/child links follow the indentation rule
+
+The specification (`Ccp/Spec/Indent.lean`): `specParent infos i` is `i` itself (a root) when
+line `i` is not indented, or is a comment whose directly preceding line is indented deeper;
+otherwise it is the largest `j < i` such that line `j` is a configuration line (not blank, not
+a comment) indented strictly less than line `i`, and `i` if there is no such line.
+`specChildren infos p` lists the `i ≠ p` with `specParent infos i = p`, ascending.
+
+Property theorems only; helper lemmas live in `Ccp.Proofs.TreeLink` / `Ccp.Proofs.TreeLossless`.
+-/
 namespace Ccp.C02
 open Ccp.Tree Ccp.Py
 
-theorem placeholder_reparent_texts (t : T) (p c : Nat) : (reparent t p c).texts = t.texts := rfl
+/-- what the loop should settle on before the comment exception (`Proofs.TreeLink.candSpec`):
+nothing for an unindented line, else the walk-back answer over the processed lines. -/
+example (rp : List (Nat × Info)) (l : Info) :
+    candSpec rp l = if l.indent = 0 then none else walkBack rp l.indent := rfl
+
+/-- **Cache invariant** of the bootstrap loop.  `CacheInv cache mx revPre` says: every cached
+entry `k ↦ p` is the walk-back answer for indent `k` over the processed lines `revPre`, and
+`0 < k ≤ mx` (`mx` = `max_indent`).  It holds for the initial state and every iteration
+preserves it, for every state and every line; under it the parent chosen by the iteration
+is the specified candidate passed through the comment exception (cached hit = walk-back). -/
+theorem cache_inv :
+    CacheInv St.init.cache St.init.mx St.init.revPre ∧
+    ∀ (st : St) (i : Nat) (l : Info), CacheInv st.cache st.mx st.revPre →
+      CacheInv (step st i l).1.cache (step st i l).1.mx (step st i l).1.revPre ∧
+      (step st i l).2 = attach st.revPre i l (candSpec st.revPre l) :=
+  ⟨cacheInv_init, fun st i l h => ⟨(step_correct st i l h).2, (step_correct st i l h).1⟩⟩
+
+/-- the invariant, unfolded (so that the statement above can be read without the helper file) -/
+example (cache : Cache) (mx : Nat) (rp : List (Nat × Info)) :
+    CacheInv cache mx rp ↔
+      ∀ k p, lookup cache k = some p → walkBack rp k = some p ∧ 0 < k ∧ k ≤ mx := Iff.rfl
+
+/-- `nearestShallower infos k n` is the largest `j < n` whose line is a configuration line
+indented less than `k` … -/
+theorem nearestShallower_some (infos : List Info) (k n j : Nat) :
+    nearestShallower infos k n = some j ↔
+      j < n ∧ (∃ l, infos[j]? = some l ∧ l.isCfg = true ∧ l.indent < k) ∧
+      ∀ m l, j < m → m < n → infos[m]? = some l → ¬ (l.isCfg = true ∧ l.indent < k) :=
+  nearestShallower_eq_some infos k n j
+
+/-- … and `none` exactly when there is no such line. -/
+theorem nearestShallower_none (infos : List Info) (k n : Nat) :
+    nearestShallower infos k n = none ↔
+      ∀ m l, m < n → infos[m]? = some l → ¬ (l.isCfg = true ∧ l.indent < k) :=
+  nearestShallower_eq_none infos k n
+
+/-- **The specification, read declaratively.**  For a line `i` with info `l`:
+an unindented line and a comment under a deeper line are roots; otherwise `p` is the parent
+iff either `p = i` and no earlier configuration line is indented less, or `p < i` is a
+configuration line indented less than `l` and no line strictly between `p` and `i` is. -/
+theorem specParent_spec (infos : List Info) (i : Nat) (l : Info) (hl : infos[i]? = some l) :
+    ((l.indent = 0 ∨ commentUnderDeeper infos i = true) → specParent infos i = i) ∧
+    (¬ (l.indent = 0 ∨ commentUnderDeeper infos i = true) → ∀ p, specParent infos i = p ↔
+      (p = i ∧ ∀ m k, m < i → infos[m]? = some k → ¬ (k.isCfg = true ∧ k.indent < l.indent)) ∨
+      (p < i ∧ (∃ k, infos[p]? = some k ∧ k.isCfg = true ∧ k.indent < l.indent) ∧
+        ∀ m k, p < m → m < i → infos[m]? = some k → ¬ (k.isCfg = true ∧ k.indent < l.indent))) := by
+  unfold specParent
+  rw [hl]
+  refine ⟨fun h => by simp [h], fun h p => ?_⟩
+  simp only [h, if_false]
+  cases hn : nearestShallower infos l.indent i with
+  | none =>
+    have h0 := (nearestShallower_eq_none infos l.indent i).mp hn
+    constructor
+    · intro hp; exact Or.inl ⟨hp.symm, h0⟩
+    · rintro (⟨hp, _⟩ | ⟨hp, ⟨k, hk, hc⟩, _⟩)
+      · exact hp.symm
+      · exact absurd hc (h0 p k hp hk)
+  | some q =>
+    obtain ⟨hq, hc, hbetween⟩ := (nearestShallower_eq_some infos l.indent i q).mp hn
+    constructor
+    · intro hp
+      have : q = p := by simpa using hp
+      subst this; exact Or.inr ⟨hq, hc, hbetween⟩
+    · rintro (⟨_, hnone⟩ | hp)
+      · obtain ⟨k, hk, hc'⟩ := hc
+        exact absurd hc' (hnone q k hq hk)
+      · have := (nearestShallower_eq_some infos l.indent i p).mpr hp
+        rw [hn] at this
+        simpa using this
+
+/-- **Pass 1 computes the specification**: for every configuration of the parser and every
+list of lines, `linkByIndent` returns one parent per line and the parent of line `i` is
+`specParent` of the line infos.  No hypotheses. -/
+theorem linkByIndent_eq_spec (cfg : Cfg) (ls : List Str) :
+    (linkByIndent cfg ls).length = ls.length ∧
+    ∀ i, i < ls.length → (linkByIndent cfg ls)[i]? = some (specParent (ls.map (info cfg)) i) := by
+  rw [linkByIndent_eq_map]
+  refine ⟨by simp, fun i hi => ?_⟩
+  simp [hi]
+
+/-- the derived child lists are exactly the specified children, for every tree whose parents
+are the specified ones (in particular the tree after pass 1 and, by `parse_links_eq_spec`,
+the final tree of a config without banner / macro starts) -/
+theorem children_eq_spec (t : T) (infos : List Info) (hlen : infos.length = t.size)
+    (hpar : t.parents = (List.range t.size).map (specParent infos)) (p : Nat) :
+    children t p = specChildren infos p := by
+  unfold children specChildren
+  rw [hlen]
+  apply List.filter_congr
+  intro j hj
+  have hj' : j < t.size := List.mem_range.mp hj
+  simp [parentOf, hpar, hj']
+
+theorem linkByIndent_children (cfg : Cfg) (ls : List Str) (keep : List Bool) (p : Nat) :
+    children { texts := ls, parents := linkByIndent cfg ls, keep := keep } p =
+      specChildren (ls.map (info cfg)) p :=
+  children_eq_spec _ _ (by simp [T.size]) (by simp [T.size, linkByIndent_eq_map]) p
+
+/-- **Final tree**: if no line is a banner start, no line is a macro start under syntax ios,
+and `ignore_blank_lines` is off (the property's "outside banner/macro bodies"), the tree
+returned by `parse` (bootstrap + commit) keeps the texts, its parents are `specParent` and
+its child lists are `specChildren`. -/
+theorem parse_links_eq_spec (cfg : Cfg) (ls : List Str)
+    (hb : ∀ x ∈ ls, isBannerStart x = false)
+    (hm : cfg.ios = true → ∀ x ∈ ls, isMacroStart x = false)
+    (hi : cfg.ignoreBlank = false) :
+    (parse cfg ls).texts = ls ∧
+    (parse cfg ls).parents = (List.range ls.length).map (specParent (ls.map (info cfg))) ∧
+    ∀ p, children (parse cfg ls) p = specChildren (ls.map (info cfg)) p := by
+  have h : parse cfg ls = { texts := ls, parents := linkByIndent cfg ls, keep := ls.map (fun _ => false) } := by
+    rw [parse_eq_bootstrap, bootstrap, bootstrapFuel_noIgnore cfg hi, link_plain cfg ls hb hm]
+  rw [h]
+  exact ⟨rfl, linkByIndent_eq_map cfg ls, fun p => linkByIndent_children cfg ls _ p⟩
+
+/-- the same with `ignore_blank_lines` on: the blank lines go, and the links of the result are
+the specification applied to the remaining lines -/
+theorem parse_links_eq_spec_ignore_blank (cfg : Cfg) (ls : List Str)
+    (hb : ∀ x ∈ ls, isBannerStart x = false)
+    (hm : cfg.ios = true → ∀ x ∈ ls, isMacroStart x = false)
+    (hi : cfg.ignoreBlank = true) :
+    (parse cfg ls).texts = ls.filter nonBlank ∧
+    (parse cfg ls).parents =
+      (List.range (ls.filter nonBlank).length).map (specParent ((ls.filter nonBlank).map (info cfg))) ∧
+    ∀ p, children (parse cfg ls) p = specChildren ((ls.filter nonBlank).map (info cfg)) p := by
+  have ht : (bootstrap cfg ls).texts = ls.filter nonBlank := by
+    rw [bootstrap_texts_eq_scan cfg hi, keptScan_plain cfg ls hb hm]
+  have h : parse cfg ls = { texts := ls.filter nonBlank, parents := linkByIndent cfg (ls.filter nonBlank),
+                            keep := (ls.filter nonBlank).map (fun _ => false) } := by
+    rw [parse_eq_bootstrap, bootstrap, bootstrapFuel_is_link]
+    show link cfg (bootstrap cfg ls).texts = _
+    rw [ht, link_plain cfg _ (fun x hx => hb x (List.mem_filter.mp hx).1)
+      (fun hios x hx => hm hios x (List.mem_filter.mp hx).1)]
+  rw [h]
+  exact ⟨rfl, linkByIndent_eq_map cfg _, fun p => linkByIndent_children cfg _ _ p⟩
+
+/-- **Syntax independence**, pass 1: the links depend on the configuration only through the
+comment delimiters — not on the syntax (`cfg.ios`), not on `ignore_blank_lines`. -/
+theorem links_syntax_independent (cfg cfg' : Cfg) (ls : List Str) (hd : cfg.delims = cfg'.delims) :
+    linkByIndent cfg ls = linkByIndent cfg' ls := by
+  unfold linkByIndent; rw [info_delims cfg cfg' hd]
+
+/-- **Syntax independence**, final tree: same lines, same delimiters, no banner start, no
+`macro name` line (so that the hypothesis does not depend on the syntax), blank lines kept
+⇒ the same parents and the same child lists whatever the two syntaxes are. -/
+theorem parse_links_syntax_independent (cfg cfg' : Cfg) (ls : List Str)
+    (hd : cfg.delims = cfg'.delims)
+    (hb : ∀ x ∈ ls, isBannerStart x = false) (hm : ∀ x ∈ ls, isMacroStart x = false)
+    (hi : cfg.ignoreBlank = false) (hi' : cfg'.ignoreBlank = false) :
+    (parse cfg ls).parents = (parse cfg' ls).parents ∧
+    ∀ p, children (parse cfg ls) p = children (parse cfg' ls) p := by
+  obtain ⟨_, h1, h2⟩ := parse_links_eq_spec cfg ls hb (fun _ => hm) hi
+  obtain ⟨_, h1', h2'⟩ := parse_links_eq_spec cfg' ls hb (fun _ => hm) hi'
+  rw [info_delims cfg cfg' hd] at h1 h2
+  exact ⟨h1.trans h1'.symm, fun p => (h2 p).trans (h2' p).symm⟩
+
+/-! ## non-vacuity -/
+
+private def iosCfg : Cfg := { ios := true, delims := ['!'], ignoreBlank := false }
+private def nxosCfg : Cfg := { ios := false, delims := ['!'], ignoreBlank := false }
+
+/-- seven lines; a comment under a deeper line (line 3), then a dedent and a re-indent -/
+private def ex7 : List Str :=
+  ["a".toList, " b".toList, "  c".toList, " !x".toList, " d".toList, "   e".toList, "  f".toList]
+
+example : linkByIndent iosCfg ex7 = [0, 0, 1, 3, 0, 4, 4] := by decide
+example : (List.range 7).map (specParent (ex7.map (info iosCfg))) = [0, 0, 1, 3, 0, 4, 4] := by decide
+example : specChildren (ex7.map (info iosCfg)) 0 = [1, 4] ∧ specChildren (ex7.map (info iosCfg)) 4 = [5, 6] := by decide
+example : (parse iosCfg ex7).parents = [0, 0, 1, 3, 0, 4, 4] ∧ (parse nxosCfg ex7).parents = [0, 0, 1, 3, 0, 4, 4] := by decide
+/-- the hypotheses of `parse_links_eq_spec` / `parse_links_syntax_independent` are satisfiable -/
+example : (∀ x ∈ ex7, isBannerStart x = false) ∧ (∀ x ∈ ex7, isMacroStart x = false) := by decide
+example : (parse { iosCfg with ignoreBlank := true } ["a".toList, "".toList, " b".toList, "  ".toList, "  c".toList]).parents
+    = [0, 0, 1] := by decide
+/-- a cached parent is really used and really pruned: indents 1,2,2 (hit), then 1 (prune), 2 -/
+example : linkByIndent iosCfg ["a".toList, " b".toList, "  c".toList, "  d".toList, " e".toList, "  f".toList]
+    = [0, 0, 1, 1, 0, 4] := by decide
+/-- the hypotheses matter: a banner body is *not* linked by indentation -/
+example : (parse iosCfg ["banner motd ^".toList, " x".toList, "  y".toList, "^".toList]).parents = [0, 0, 0, 0] := by decide
 
 end Ccp.C02
